@@ -138,7 +138,8 @@ impl<T: NativeType> ArrayBuilder for PrimitiveArrayBuilder<T> {
     }
 
     fn replace_bitmap(&mut self, valid: BitVec) {
-        let _ = mem::replace(&mut self.valid, valid);
+        self.valid.truncate(self.valid.len() - valid.len());
+        self.valid.extend_from_bitslice(&valid);
     }
 
     fn with_capacity(capacity: usize) -> Self {
